@@ -60,6 +60,11 @@ ASSUMPTIONS = [
     "ulp(f(x)) is taken at max(|f(x)|, |declared bounds/shift|) because the value passes through lower + width*y; for a "
     "chain the terms of all stages are summed with the chain rule; points with tol > 0.1 (1+|x|) are skipped "
     "('wherever the inverse is representable'); forward(inverse(y)) uses the mirrored rule in y",
+    "XLA's CPU code flushes subnormal numbers to zero, so every ulp in the tolerances is floored at the smallest normal "
+    "number of the dtype (a correct implementation cannot resolve softplus(-720) = 2e-313)",
+    "signature field 'regime' only LABELS where a violating point lies (beyond_exp_clip: some exp argument of the stage "
+    "formulas >= 20 - 2^-10, judged on the specification's AND the implementation's stage inputs; softplus_tail: "
+    "softplus value < 2^-6 where log(exp(z)-1) cancels; ordinary: everything else); no regime is exempt from any rule",
     "NegSoftplusTransform(upper) is specified by its docstring: bijection onto (-inf, upper], i.e. upper - softplus(-x)",
     "AffineTransform is used as (scale, shift) = (upper-lower, lower) plus one negative scale (-2, 0.5); a negative "
     "scale must be monotone decreasing; CustomTransform is exercised with two user function pairs "
@@ -826,6 +831,7 @@ def run_config(desc, tier, impl="jaxley"):
     res["_n"] = {"x": int(xs.size), "y": int(ys.size), "x32": int(x32.size)}
     if desc["kind"] in ("chain", "masked", "custom"):
         res["cover"].append(desc["kind"])
+    res["cover"] = sorted(set(res["cover"]))
     return res
 
 
